@@ -202,10 +202,23 @@ package goose
 
 // ---- look-alikes: a builtin translation requires the universe builtin (C02) ----------------------
 
+// The Go type checker accepts a call of a predeclared function or a conversion to a predeclared
+// type only with the right number of arguments (trusted: go/types).
+//@ ghost func univ(info *types.Info, f ast.Expr) bool = typeis(f, *ast.Ident) && has(info.Uses, f.(*ast.Ident)) && pure(*types.Scope, "(go/types.Object).Parent", info.Uses[f.(*ast.Ident)]) == types.Universe
+//@ ghost func fname(f ast.Expr) string = f.(*ast.Ident).Name
+//@ axiom [ast] builtin_one_argument: forall info *types.Info, e *ast.CallExpr :: univ(info, e.Fun) && (fname(e.Fun) == "new" || fname(e.Fun) == "len" || fname(e.Fun) == "cap" || fname(e.Fun) == "panic" || fname(e.Fun) == "uint64" || fname(e.Fun) == "uint32" || fname(e.Fun) == "uint8") ==> len(e.Args) == 1
+//@ axiom [ast] builtin_two_arguments: forall info *types.Info, e *ast.CallExpr :: univ(info, e.Fun) && (fname(e.Fun) == "copy" || fname(e.Fun) == "delete") ==> len(e.Args) == 2
+//@ axiom [ast] builtin_some_argument: forall info *types.Info, e *ast.CallExpr :: univ(info, e.Fun) && (fname(e.Fun) == "make" || fname(e.Fun) == "append") ==> len(e.Args) >= 1
 //@ ghost func isuniverse(ctx Ctx, f ast.Expr) bool = typeis(f, *ast.Ident) && has(ctx.info.Uses, f.(*ast.Ident)) && pure(*types.Scope, "(go/types.Object).Parent", ctx.info.Uses[f.(*ast.Ident)]) == types.Universe
 
 //@ props C02 C07
 
+//@ func (Ctx).isBuiltin
+//@   ensures [true exactly for the identifier `name` denoting the predeclared object] result <==> (typeis(e, *ast.Ident) && e.(*ast.Ident).Name == name && univ(ctx.info, e))
+//@   modifies nothing
+//@ func (Ctx).makeExpr
+//@   requires [type checker: a call of the universe make has at least one argument] len(args) >= 1
+//@   may_reject
 //@ func (Ctx).lenExpr
 //@   requires [len denotes the universe builtin, not a user-defined look-alike] isuniverse(ctx, e.Fun)
 //@   trusted_requires [type checker: a call of the universe len has exactly one argument] len(e.Args) == 1
